@@ -42,6 +42,8 @@ func ulpDistance(a, b float64) uint64 {
 	return uint64(y - x)
 }
 
+var ten12 = new(big.Int).Exp(big.NewInt(10), big.NewInt(12), nil)
+
 func matchesHint(f float64, hint string) bool {
 	switch hint {
 	case "NaN":
@@ -85,7 +87,10 @@ func matchesHint(f float64, hint string) bool {
 	if neg {
 		nearest = -nearest
 	}
-	if mant.Cmp(two53) < 0 && abs(exp) <= 5 {
+	// C05: "exactly the nearest double for ordinary values of up to 12 significant digits" — at most 12 decimal digits
+	// in the mantissa (three base-10000 groups), any exponent of the quantified range (|weight| <= 16 and beyond: up to
+	// 10^±80); longer mantissas are held to "agrees to double precision" (maxUlps)
+	if (mant.Cmp(ten12) < 0 && abs(exp) <= 20) || (mant.Cmp(two53) < 0 && abs(exp) <= 5) {
 		return f == nearest
 	}
 	return f == nearest || ulpDistance(f, nearest) <= maxUlps
